@@ -12,7 +12,8 @@
 //!
 //! DIFFERENTIAL (model vs implementation): every alphabet call carries a *script* — the tree of
 //! thread-local operations the deserializer performs on that input (document scopes, anchor contexts,
-//! wrapper visitors, fallback guards incl. the lazily created map-access guard, probes, the failure
+//! wrapper visitors, fallback guards incl. the lazily created map-access key guard and the scoped guard around every
+//! mapping value (`MA::next_value_seed`, at the value's use-site location), probes, the failure
 //! point, nested calls). `modeldrv` (Model/Tls.lean) interprets the scripts over the explicit
 //! thread-local state and predicts outcome, pointer-sharing pattern, the state seen at every probe point
 //! inside the call and the state after the call; the harness reports what the real code showed.
@@ -214,6 +215,13 @@ struct PanicDoc {
     y: RcAnchor<BoomLeaf>,
 }
 #[derive(Debug, Deserialize)]
+struct NzDoc {
+    #[allow(dead_code)]
+    a: u8,
+    #[allow(dead_code)]
+    k: std::num::NonZeroU8,
+}
+#[derive(Debug, Deserialize)]
 struct Outer {
     #[allow(dead_code)]
     o: Leaf,
@@ -335,7 +343,7 @@ enum A {
     Ctx(u8, Option<usize>, Vec<A>),
     Strong(u8, Vec<A>),
     Weak(u8, Vec<A>),
-    /// scoped MissingFieldLocationGuard (deserialize_map container guard / SA element guard)
+    /// scoped MissingFieldLocationGuard (deserialize_map container guard / SA element guard / MA value guard)
     G(u64, Vec<A>),
     /// life of one map access; `true` = the visitor leaks it (mem::forget)
     Ma(bool, Vec<A>),
@@ -377,19 +385,48 @@ fn b_(v: bool) -> &'static str {
 fn l(line: u64, col: u64) -> u64 {
     (line << 20) | col
 }
+/// One mapping entry as `MA` runs it.
+/// * `key`: location of the key delivered by `MA::next_key_seed` (lazily created / updated key guard);
+/// * `pre`: what happens between `next_key` and the value guard — the visitor's own actions between its two calls,
+///   and whatever `next_value_seed` does before it installs the guard (its look-ahead `peek`, which is where the event
+///   source meets an alias);
+/// * `val`: `Some((vloc, body))` = `MA::next_value_seed` reads the value: scoped value guard at the value's use-site
+///   location `vloc` (`reference_location`: the node's own start, through an alias the alias token) around `body`;
+///   `None` = the value is never asked for (an error during key deserialization or in the look-ahead ends the call).
+struct Ent {
+    key: u64,
+    pre: Vec<A>,
+    val: Option<(u64, Vec<A>)>,
+}
+/// derived-struct style entry: key, then straight the value
+fn e(key: u64, vloc: u64, body: Vec<A>) -> Ent {
+    Ent { key, pre: vec![], val: Some((vloc, body)) }
+}
+/// entry with actions between the key and the value guard
+fn ep(key: u64, pre: Vec<A>, vloc: u64, body: Vec<A>) -> Ent {
+    Ent { key, pre, val: Some((vloc, body)) }
+}
+/// a key whose value is never read
+fn ek(key: u64) -> Ent {
+    Ent { key, pre: vec![], val: None }
+}
 /// `deserialize_map` on a mapping: container guard, then the map access with its entries
-fn map(container: u64, entries: Vec<(u64, Vec<A>)>) -> A {
+fn map(container: u64, entries: Vec<Ent>) -> A {
     map_tail(container, entries, vec![], false)
 }
-fn map_tail(container: u64, entries: Vec<(u64, Vec<A>)>, tail: Vec<A>, leak: bool) -> A {
+fn map_tail(container: u64, entries: Vec<Ent>, tail: Vec<A>, leak: bool) -> A {
     map_full(container, vec![], entries, tail, leak)
 }
 /// `head`: what the visitor does before asking for the first key
-fn map_full(container: u64, head: Vec<A>, entries: Vec<(u64, Vec<A>)>, tail: Vec<A>, leak: bool) -> A {
+fn map_full(container: u64, head: Vec<A>, entries: Vec<Ent>, tail: Vec<A>, leak: bool) -> A {
     let mut body = head;
-    for (kloc, mut v) in entries {
-        body.push(A::Key(kloc));
-        body.append(&mut v);
+    for Ent { key, mut pre, val } in entries {
+        body.push(A::Key(key));
+        body.append(&mut pre);
+        if let Some((vloc, v)) = val {
+            // `let _value_guard = MissingFieldLocationGuard::new(reference_location)` in `MA::next_value_seed`
+            body.push(A::G(vloc, v));
+        }
     }
     body.extend(tail);
     A::G(container, vec![A::Ma(leak, body)])
@@ -401,8 +438,10 @@ fn strong(kind: u8, id: Option<usize>, inner: Vec<A>) -> A {
 fn weak(kind: u8, id: Option<usize>, inner: Vec<A>) -> A {
     A::Ctx(kind, id, vec![A::Weak(kind, inner)])
 }
-fn leaf(container: u64, vkey: u64) -> A {
-    map(container, vec![(vkey, vec![A::Probe])])
+/// `Leaf { v: P }` on `{v: 1}`: container guard, key `v` at `vkey`, the value (one probe) at `vval`
+/// (written directly: the scalar's own position; replayed through an alias: the alias token)
+fn leaf(container: u64, vkey: u64, vval: u64) -> A {
+    map(container, vec![e(vkey, vval, vec![A::Probe])])
 }
 
 // ------------------------------------------------------------------------------------------------
@@ -457,10 +496,12 @@ const DOC_SEQ_FAIL: &str = "a: &s [1, 2, x]\nb: *s\n";
 const DOC_SEQ_OK: &str = "a: &s [1, 2]\nb: *s\n";
 const DOC_MAP: &str = "m: {p: 1, q: 2}\nz: 3\n";
 const DOC_MISSING: &str = "o:\n  w: 1\n";
+const DOC_MISSING_NULL: &str = "o: ~\n";
 const DOC_UNKNOWN: &str = "- {v: 1}\n- {q: 2}\n";
 const DOC_ARC: &str = "x: &a {v: 1}\nw: *a\nz: 3\n";
 const DOC_REC: &str = "foo: &a\n  k1: 1\n  k3: *a\n";
 const DOC_NESTED: &str = "x: &a {v: 1}\nn: nonzero\ny: *a\n";
+const DOC_NZ: &str = "a: 1\nk:   0\n";
 const DOC_PANIC: &str = "x: &a {v: 1}\ny: &b {v: 2}\n";
 
 fn shared_text(s: &Shared) -> String {
@@ -471,9 +512,9 @@ fn shared_ptrs(s: &Shared) -> Vec<usize> {
 }
 fn shared_script(zloc: u64) -> Vec<A> {
     vec![A::Scope(false, vec![map(l(1, 1), vec![
-        (l(1, 1), vec![strong(0, Some(1), vec![leaf(l(1, 7), l(1, 8))])]),
-        (l(2, 1), vec![strong(0, Some(1), vec![leaf(l(2, 4), l(1, 8))])]),
-        (zloc, vec![A::Probe]),
+        e(l(1, 1), l(1, 7), vec![strong(0, Some(1), vec![leaf(l(1, 7), l(1, 8), l(1, 11))])]),
+        e(l(2, 1), l(2, 4), vec![strong(0, Some(1), vec![leaf(l(2, 4), l(1, 8), l(2, 4))])]),
+        e(zloc, zloc + 3, vec![A::Probe]),
     ])])]
 }
 
@@ -489,23 +530,23 @@ fn alphabet() -> &'static [CallDef] {
             name: "fail_ctx", what: "failure inside an anchor-wrapper context (second RcAnchor field, first one stored)", base: true,
             run: || finish(catch(|| serde_saphyr::from_str::<Shared>(DOC_FAIL_CTX)), shared_text, shared_ptrs),
             script: || vec![A::Scope(false, vec![map(l(1, 1), vec![
-                (l(1, 1), vec![strong(0, Some(1), vec![leaf(l(1, 7), l(1, 8))])]),
-                (l(2, 1), vec![strong(0, Some(2), vec![map(l(2, 7), vec![(l(2, 8), vec![A::Probe, A::Err(l(2, 11))])])])]),
+                e(l(1, 1), l(1, 7), vec![strong(0, Some(1), vec![leaf(l(1, 7), l(1, 8), l(1, 11))])]),
+                e(l(2, 1), l(2, 7), vec![strong(0, Some(2), vec![map(l(2, 7), vec![e(l(2, 8), l(2, 11), vec![A::Probe, A::Err(l(2, 11))])])])]),
             ])])],
         },
         CallDef {
             name: "fail_seq", what: "failure midway through an anchored sequence (no wrapper), inside an element guard", base: true,
             run: || finish(catch(|| serde_saphyr::from_str::<SeqDoc>(DOC_SEQ_FAIL)), |d| format!("{d:?}"), |_| vec![]),
             script: || vec![A::Scope(false, vec![map(l(1, 1), vec![
-                (l(1, 1), vec![A::Probe, A::G(l(1, 8), vec![A::Probe]), A::G(l(1, 11), vec![A::Probe]), A::G(l(1, 14), vec![A::Probe, A::Err(l(1, 14))])]),
+                e(l(1, 1), l(1, 7), vec![A::Probe, A::G(l(1, 8), vec![A::Probe]), A::G(l(1, 11), vec![A::Probe]), A::G(l(1, 14), vec![A::Probe, A::Err(l(1, 14))])]),
             ])])],
         },
         CallDef {
             name: "ok_seq", what: "anchored sequence replayed through an alias: success", base: true,
             run: || finish(catch(|| serde_saphyr::from_str::<SeqDoc>(DOC_SEQ_OK)), |d| format!("{d:?}"), |_| vec![]),
             script: || vec![A::Scope(false, vec![map(l(1, 1), vec![
-                (l(1, 1), vec![A::Probe, A::G(l(1, 8), vec![A::Probe]), A::G(l(1, 11), vec![A::Probe]), A::Probe]),
-                (l(2, 1), vec![A::Probe, A::G(l(2, 4), vec![A::Probe]), A::G(l(2, 4), vec![A::Probe]), A::Probe]),
+                e(l(1, 1), l(1, 7), vec![A::Probe, A::G(l(1, 8), vec![A::Probe]), A::G(l(1, 11), vec![A::Probe]), A::Probe]),
+                e(l(2, 1), l(2, 4), vec![A::Probe, A::G(l(2, 4), vec![A::Probe]), A::G(l(2, 4), vec![A::Probe]), A::Probe]),
             ])])],
         },
         CallDef {
@@ -519,24 +560,25 @@ fn alphabet() -> &'static [CallDef] {
                 finish(catch(|| serde_saphyr::from_str_with_options::<Shared>(DOC_OK, o)), shared_text, shared_ptrs)
             },
             script: || vec![A::Scope(false, vec![map(l(1, 1), vec![
-                (l(1, 1), vec![strong(0, Some(1), vec![leaf(l(1, 7), l(1, 8))])]),
-                (l(2, 1), vec![strong(0, Some(1), vec![map(l(2, 4), vec![(l(1, 8), vec![A::Err(l(2, 4))])])])]),
+                e(l(1, 1), l(1, 7), vec![strong(0, Some(1), vec![leaf(l(1, 7), l(1, 8), l(1, 11))])]),
+                // the breach is met by the look-ahead of `next_value_seed` (ninth node = the replayed scalar), before the value guard
+                e(l(2, 1), l(2, 4), vec![strong(0, Some(1), vec![map_tail(l(2, 4), vec![ek(l(1, 8))], vec![A::Err(l(2, 4))], false)])]),
             ])])],
         },
         CallDef {
             name: "map_guard", what: "map visitor probing before/after keys (container guard, lazily created key guard)", base: true,
             run: || finish(catch(|| serde_saphyr::from_str::<MapDoc>(DOC_MAP)), |d| format!("{d:?}"), |_| vec![]),
             script: || vec![A::Scope(false, vec![map(l(1, 1), vec![
-                (l(1, 1), vec![map_full(l(1, 4), vec![A::Probe], vec![(l(1, 5), vec![A::Probe, A::Probe]), (l(1, 11), vec![A::Probe, A::Probe])], vec![A::Probe], false)]),
-                (l(2, 1), vec![A::Probe]),
+                e(l(1, 1), l(1, 4), vec![map_full(l(1, 4), vec![A::Probe], vec![ep(l(1, 5), vec![A::Probe], l(1, 8), vec![A::Probe]), ep(l(1, 11), vec![A::Probe], l(1, 14), vec![A::Probe])], vec![A::Probe], false)]),
+                e(l(2, 1), l(2, 4), vec![A::Probe]),
             ])])],
         },
         CallDef {
             name: "map_leak", what: "map visitor that leaks (mem::forget) its map access: the key guard is never dropped", base: true,
             run: || finish(catch(|| serde_saphyr::from_str::<LeakDoc>(DOC_MAP)), |d| format!("{d:?}"), |_| vec![]),
             script: || vec![A::Scope(false, vec![map(l(1, 1), vec![
-                (l(1, 1), vec![map_full(l(1, 4), vec![A::Probe], vec![(l(1, 5), vec![A::Probe, A::Probe]), (l(1, 11), vec![A::Probe, A::Probe])], vec![A::Probe], true)]),
-                (l(2, 1), vec![A::Probe]),
+                e(l(1, 1), l(1, 4), vec![map_full(l(1, 4), vec![A::Probe], vec![ep(l(1, 5), vec![A::Probe], l(1, 8), vec![A::Probe]), ep(l(1, 11), vec![A::Probe], l(1, 14), vec![A::Probe])], vec![A::Probe], true)]),
+                e(l(2, 1), l(2, 4), vec![A::Probe]),
             ])])],
         },
         CallDef {
@@ -544,15 +586,24 @@ fn alphabet() -> &'static [CallDef] {
             run: || finish(catch(|| serde_saphyr::from_str::<Outer>(DOC_MISSING)), |d| format!("{d:?}"), |_| vec![]),
             script: || vec![A::Scope(false, vec![map(l(1, 1), vec![
                 // derive's missing-field path deserializes the field type from a MissingFieldDeserializer: P probes, then the static error
-                (l(1, 1), vec![map_tail(l(2, 3), vec![(l(2, 3), vec![])], vec![A::Probe, A::Serr], false)]),
+                // (the unknown key `w` is skipped: its value is read as IgnoredAny under the value guard; the static error is raised
+                // after the last entry, when the cell again holds the key location)
+                e(l(1, 1), l(2, 3), vec![map_tail(l(2, 3), vec![e(l(2, 3), l(2, 6), vec![])], vec![A::Probe, A::Serr], false)]),
+            ])])],
+        },
+        CallDef {
+            name: "missing_null", what: "missing field of a struct read from a null scalar (`o: ~`: the empty-map path has no container guard): the static error takes the VALUE guard's location (the `~`, as `o: {}` reports the `{`), no longer the key's", base: true,
+            run: || finish(catch(|| serde_saphyr::from_str::<Outer>(DOC_MISSING_NULL)), |d| format!("{d:?}"), |_| vec![]),
+            script: || vec![A::Scope(false, vec![map(l(1, 1), vec![
+                e(l(1, 1), l(1, 4), vec![A::Probe, A::Serr]),
             ])])],
         },
         CallDef {
             name: "unknown", what: "unknown field (deny_unknown_fields) in the second element of a sequence: static error during key deserialization", base: true,
             run: || finish(catch(|| serde_saphyr::from_str::<Vec<Strict>>(DOC_UNKNOWN)), |d| format!("{d:?}"), |_| vec![]),
             script: || vec![A::Scope(false, vec![
-                A::G(l(1, 3), vec![leaf(l(1, 3), l(1, 4))]),
-                A::G(l(2, 3), vec![map_tail(l(2, 3), vec![(l(2, 4), vec![])], vec![A::Serr], false)]),
+                A::G(l(1, 3), vec![leaf(l(1, 3), l(1, 4), l(1, 7))]),
+                A::G(l(2, 3), vec![map_tail(l(2, 3), vec![ek(l(2, 4))], vec![A::Serr], false)]),
             ])],
         },
         CallDef {
@@ -561,9 +612,9 @@ fn alphabet() -> &'static [CallDef] {
                 |d| format!("share={} x.v={} z={}", b_(d.w.upgrade().map(|w| Arc::ptr_eq(&w, &d.x.0)).unwrap_or(false)), d.x.0.v.0, d.z.0),
                 |d| vec![arcp(&d.x.0), d.w.upgrade().map(|w| arcp(&w)).unwrap_or(0)]),
             script: || vec![A::Scope(false, vec![map(l(1, 1), vec![
-                (l(1, 1), vec![strong(1, Some(1), vec![leaf(l(1, 7), l(1, 8))])]),
-                (l(2, 1), vec![weak(1, Some(1), vec![map(l(2, 4), vec![(l(1, 8), vec![])])])]),
-                (l(3, 1), vec![A::Probe]),
+                e(l(1, 1), l(1, 7), vec![strong(1, Some(1), vec![leaf(l(1, 7), l(1, 8), l(1, 11))])]),
+                e(l(2, 1), l(2, 4), vec![weak(1, Some(1), vec![map(l(2, 4), vec![e(l(1, 8), l(2, 4), vec![])])])]),
+                e(l(3, 1), l(3, 4), vec![A::Probe]),
             ])])],
         },
         CallDef {
@@ -572,9 +623,10 @@ fn alphabet() -> &'static [CallDef] {
                 |d| { let g = d.foo.borrow(); format!("k1={} cyc={}", g.k1.0, b_(g.k3.upgrade().map(|u| Rc::ptr_eq(&u.0, &d.foo.0)).unwrap_or(false))) },
                 |d| { let g = d.foo.borrow(); vec![g.k3.upgrade().map(|u| rcp(&u.0)).unwrap_or(0), rcp(&d.foo.0)] }),
             script: || vec![A::Scope(false, vec![map(l(1, 1), vec![
-                (l(1, 1), vec![strong(2, Some(1), vec![map(l(2, 3), vec![
-                    (l(2, 3), vec![A::Probe]),
-                    (l(3, 3), vec![A::RecAlias(1, l(3, 7)), weak(2, Some(1), vec![])]),
+                e(l(1, 1), l(2, 3), vec![strong(2, Some(1), vec![map(l(2, 3), vec![
+                    e(l(2, 3), l(2, 7), vec![A::Probe]),
+                    // the alias is met by the look-ahead of `next_value_seed`, before the value guard
+                    ep(l(3, 3), vec![A::RecAlias(1, l(3, 7))], l(3, 7), vec![weak(2, Some(1), vec![])]),
                 ])])]),
             ])])],
         },
@@ -582,8 +634,8 @@ fn alphabet() -> &'static [CallDef] {
             name: "panic", what: "visitor panics inside an anchor-wrapper context inside a map access (caught by catch_unwind at the call site)", base: true,
             run: || finish(catch(|| serde_saphyr::from_str::<PanicDoc>(DOC_PANIC).map(|_| ())), |_| String::new(), |_| vec![]),
             script: || vec![A::Scope(false, vec![map(l(1, 1), vec![
-                (l(1, 1), vec![strong(0, Some(1), vec![leaf(l(1, 7), l(1, 8))])]),
-                (l(2, 1), vec![strong(0, Some(2), vec![map(l(2, 7), vec![(l(2, 8), vec![A::Probe, A::Panic])])])]),
+                e(l(1, 1), l(1, 7), vec![strong(0, Some(1), vec![leaf(l(1, 7), l(1, 8), l(1, 11))])]),
+                e(l(2, 1), l(2, 7), vec![strong(0, Some(2), vec![map(l(2, 7), vec![e(l(2, 8), l(2, 11), vec![A::Probe, A::Panic])])])]),
             ])])],
         },
         CallDef {
@@ -616,8 +668,8 @@ fn alphabet() -> &'static [CallDef] {
             script: || {
                 let mut s = shared_script(l(3, 1));
                 s.push(A::Scope(true, vec![map(l(5, 1), vec![
-                    (l(5, 1), vec![strong(0, Some(2), vec![leaf(l(5, 7), l(5, 8))])]),
-                    (l(6, 1), vec![strong(0, Some(3), vec![map(l(6, 7), vec![(l(6, 8), vec![A::Probe, A::Err(l(6, 11))])])])]),
+                    e(l(5, 1), l(5, 7), vec![strong(0, Some(2), vec![leaf(l(5, 7), l(5, 8), l(5, 11))])]),
+                    e(l(6, 1), l(6, 7), vec![strong(0, Some(3), vec![map(l(6, 7), vec![e(l(6, 8), l(6, 11), vec![A::Probe, A::Err(l(6, 11))])])])]),
                 ])]));
                 s
             },
@@ -633,9 +685,9 @@ fn alphabet() -> &'static [CallDef] {
             script: || {
                 let mut s = shared_script(l(3, 1));
                 s.push(A::Scope(false, vec![map(l(5, 1), vec![
-                    (l(5, 1), vec![strong(0, Some(2), vec![leaf(l(5, 7), l(5, 8))])]),
-                    (l(6, 1), vec![strong(0, Some(2), vec![leaf(l(6, 4), l(5, 8))])]),
-                    (l(7, 1), vec![A::Probe]),
+                    e(l(5, 1), l(5, 7), vec![strong(0, Some(2), vec![leaf(l(5, 7), l(5, 8), l(5, 11))])]),
+                    e(l(6, 1), l(6, 4), vec![strong(0, Some(2), vec![leaf(l(6, 4), l(5, 8), l(6, 4))])]),
+                    e(l(7, 1), l(7, 4), vec![A::Probe]),
                 ])]));
                 s
             },
@@ -645,9 +697,9 @@ fn alphabet() -> &'static [CallDef] {
             run: || finish(catch(|| serde_saphyr::from_str_valid::<GDoc>(DOC_OK)),
                 |d| format!("share={} z={}", b_(Rc::ptr_eq(&d.x.0, &d.y.0)), d.z), |d| vec![rcp(&d.x.0), rcp(&d.y.0)]),
             script: || vec![A::Scope(false, vec![map(l(1, 1), vec![
-                (l(1, 1), vec![strong(0, Some(1), vec![leaf(l(1, 7), l(1, 8))])]),
-                (l(2, 1), vec![strong(0, Some(1), vec![leaf(l(2, 4), l(1, 8))])]),
-                (l(3, 1), vec![]),
+                e(l(1, 1), l(1, 7), vec![strong(0, Some(1), vec![leaf(l(1, 7), l(1, 8), l(1, 11))])]),
+                e(l(2, 1), l(2, 4), vec![strong(0, Some(1), vec![leaf(l(2, 4), l(1, 8), l(2, 4))])]),
+                e(l(3, 1), l(3, 4), vec![]),
             ])]), A::Err(l(3, 4))],
         },
         CallDef {
@@ -682,13 +734,21 @@ fn alphabet() -> &'static [CallDef] {
             script: || vec![A::Scope(false, vec![A::Serr])],
         },
         CallDef {
+            name: "nz_value", what: "struct field of type NonZeroU8 holding 0: static Serde error raised while a mapping VALUE is read (value guard: reported at the value, 2:6, not at the key)", base: true,
+            run: || finish(catch(|| serde_saphyr::from_str::<NzDoc>(DOC_NZ)), |d| format!("{d:?}"), |_| vec![]),
+            script: || vec![A::Scope(false, vec![map(l(1, 1), vec![
+                e(l(1, 1), l(1, 4), vec![]),
+                e(l(2, 1), l(2, 6), vec![A::Serr]),
+            ])])],
+        },
+        CallDef {
             name: "nested", what: "a field whose Deserialize impl calls from_str, between an anchor definition and its alias", base: false,
             run: || finish(catch(|| serde_saphyr::from_str::<WithNested>(DOC_NESTED)),
                 |d| format!("share={} x.v={} y.v={}", b_(Rc::ptr_eq(&d.x.0, &d.y.0)), d.x.0.v.0, d.y.0.v.0), |d| vec![rcp(&d.x.0), rcp(&d.y.0)]),
             script: || vec![A::Scope(false, vec![map(l(1, 1), vec![
-                (l(1, 1), vec![strong(0, Some(1), vec![leaf(l(1, 7), l(1, 8))])]),
-                (l(2, 1), vec![A::Probe, A::Nest(vec![A::Scope(false, vec![A::Serr])]), A::Probe]),
-                (l(3, 1), vec![strong(0, Some(1), vec![leaf(l(3, 4), l(1, 8))])]),
+                e(l(1, 1), l(1, 7), vec![strong(0, Some(1), vec![leaf(l(1, 7), l(1, 8), l(1, 11))])]),
+                e(l(2, 1), l(2, 4), vec![A::Probe, A::Nest(vec![A::Scope(false, vec![A::Serr])]), A::Probe]),
+                e(l(3, 1), l(3, 4), vec![strong(0, Some(1), vec![leaf(l(3, 4), l(1, 8), l(3, 4))])]),
             ])])],
         },
     ])
@@ -858,7 +918,7 @@ fn generate(a: &Args) -> i32 {
         "distinct_nontrivial": nt,
         "calls_run": calls_run,
         "alphabet": alpha.iter().map(|c| format!("{}: {}", c.name, c.what)).collect::<Vec<_>>(),
-        "rule": format!("all sequences of length 1..{max_len} over an alphabet of {n} top-level calls (success with Rc/Arc/recursive anchors, failure inside an anchor-wrapper context, failure midway through an anchored sequence, budget breach, static Serde errors with and without a guard, leaked map access, panicking visitor, abandoned read iterator, from_multiple, from_str_valid, to_string with shared pointers, a type whose Deserialize impl performs a nested parse) plus {random_long} random sequences of length 5..12 (seeded); every sequence on its own fresh thread; one differential case per sequence (model predicts per call: outcome, sharing pattern, thread-local state at every probe point and after the call); oracle: each call's full textual result = result on a fresh thread, probes clean after each call; nested sweep: every base call nested at 4 host positions (struct field, inside an RcAnchor context, sequence elements, inside an RcRecursive node). Non-trivial = sequences of length >= 2."),
+        "rule": format!("all sequences of length 1..{max_len} over an alphabet of {n} top-level calls (success with Rc/Arc/recursive anchors, failure inside an anchor-wrapper context, failure midway through an anchored sequence, budget breach, static Serde errors with and without a guard — after the last entry of a mapping (key location), during a key, in a mapping value (value guard) —, leaked map access, panicking visitor, abandoned read iterator, from_multiple, from_str_valid, to_string with shared pointers, a type whose Deserialize impl performs a nested parse) plus {random_long} random sequences of length 5..12 (seeded); every sequence on its own fresh thread; one differential case per sequence (model predicts per call: outcome, sharing pattern, thread-local state at every probe point and after the call); oracle: each call's full textual result = result on a fresh thread, probes clean after each call; nested sweep: every base call nested at 4 host positions (struct field, inside an RcAnchor context, sequence elements, inside an RcRecursive node). Non-trivial = sequences of length >= 2."),
     }));
     std::fs::write(format!("{}/calls.oracle.jsonl", a.out), oracle.join("\n") + if oracle.is_empty() { "" } else { "\n" }).unwrap();
     0
@@ -887,9 +947,9 @@ fn hosts() -> &'static [Host] {
             doc: |n| format!("x: &a {{v: 1}}\nn: {n}\ny: *a\n"),
             run: |doc| finish(catch(|| serde_saphyr::from_str::<WithNested>(doc)), |d| format!("share={}", b_(Rc::ptr_eq(&d.x.0, &d.y.0))), |d| vec![rcp(&d.x.0), rcp(&d.y.0)]),
             script: |_, inner| vec![A::Scope(false, vec![map(l(1, 1), vec![
-                (l(1, 1), vec![strong(0, Some(1), vec![leaf(l(1, 7), l(1, 8))])]),
-                (l(2, 1), nest_acts(inner)),
-                (l(3, 1), vec![strong(0, Some(1), vec![leaf(l(3, 4), l(1, 8))])]),
+                e(l(1, 1), l(1, 7), vec![strong(0, Some(1), vec![leaf(l(1, 7), l(1, 8), l(1, 11))])]),
+                e(l(2, 1), l(2, 4), nest_acts(inner)),
+                e(l(3, 1), l(3, 4), vec![strong(0, Some(1), vec![leaf(l(3, 4), l(1, 8), l(3, 4))])]),
             ])])],
         },
         Host {
@@ -897,8 +957,8 @@ fn hosts() -> &'static [Host] {
             doc: |n| format!("x: &a {{v: 1, h: {n}}}\ny: *a\n"),
             run: |doc| finish(catch(|| serde_saphyr::from_str::<HostCtx>(doc)), |d| format!("share={}", b_(Rc::ptr_eq(&d.x.0, &d.y.0))), |d| vec![rcp(&d.x.0), rcp(&d.y.0)]),
             script: |_, inner| vec![A::Scope(false, vec![map(l(1, 1), vec![
-                (l(1, 1), vec![strong(0, Some(1), vec![map(l(1, 7), vec![(l(1, 8), vec![A::Probe]), (l(1, 14), nest_acts(inner.clone()))])])]),
-                (l(2, 1), vec![strong(0, Some(1), vec![map(l(2, 4), vec![(l(1, 8), vec![A::Probe]), (l(1, 14), nest_acts(inner))])])]),
+                e(l(1, 1), l(1, 7), vec![strong(0, Some(1), vec![map(l(1, 7), vec![e(l(1, 8), l(1, 11), vec![A::Probe]), e(l(1, 14), l(1, 17), nest_acts(inner.clone()))])])]),
+                e(l(2, 1), l(2, 4), vec![strong(0, Some(1), vec![map(l(2, 4), vec![e(l(1, 8), l(2, 4), vec![A::Probe]), e(l(1, 14), l(2, 4), nest_acts(inner))])])]),
             ])])],
         },
         Host {
@@ -906,9 +966,9 @@ fn hosts() -> &'static [Host] {
             doc: |n| format!("a: &a {{v: 1}}\ns: [{n}, {n}]\nb: *a\n"),
             run: |doc| finish(catch(|| serde_saphyr::from_str::<HostSeq>(doc)), |d| format!("share={}", b_(Rc::ptr_eq(&d.a.0, &d.b.0))), |d| vec![rcp(&d.a.0), rcp(&d.b.0)]),
             script: |n, inner| vec![A::Scope(false, vec![map(l(1, 1), vec![
-                (l(1, 1), vec![strong(0, Some(1), vec![leaf(l(1, 7), l(1, 8))])]),
-                (l(2, 1), vec![A::G(l(2, 5), nest_acts(inner.clone())), A::G(l(2, 7 + n.len() as u64), nest_acts(inner))]),
-                (l(3, 1), vec![strong(0, Some(1), vec![leaf(l(3, 4), l(1, 8))])]),
+                e(l(1, 1), l(1, 7), vec![strong(0, Some(1), vec![leaf(l(1, 7), l(1, 8), l(1, 11))])]),
+                e(l(2, 1), l(2, 4), vec![A::G(l(2, 5), nest_acts(inner.clone())), A::G(l(2, 7 + n.len() as u64), nest_acts(inner))]),
+                e(l(3, 1), l(3, 4), vec![strong(0, Some(1), vec![leaf(l(3, 4), l(1, 8), l(3, 4))])]),
             ])])],
         },
         Host {
@@ -918,10 +978,10 @@ fn hosts() -> &'static [Host] {
                 |d| { let g = d.foo.borrow(); format!("cyc={}", b_(g.k3.upgrade().map(|u| Rc::ptr_eq(&u.0, &d.foo.0)).unwrap_or(false))) },
                 |d| { let g = d.foo.borrow(); vec![g.k3.upgrade().map(|u| rcp(&u.0)).unwrap_or(0), rcp(&d.foo.0)] }),
             script: |_, inner| vec![A::Scope(false, vec![map(l(1, 1), vec![
-                (l(1, 1), vec![strong(2, Some(1), vec![map(l(2, 3), vec![
-                    (l(2, 3), vec![A::Probe]),
-                    (l(3, 3), nest_acts(inner)),
-                    (l(4, 3), vec![A::RecAlias(1, l(4, 7)), weak(2, Some(1), vec![])]),
+                e(l(1, 1), l(2, 3), vec![strong(2, Some(1), vec![map(l(2, 3), vec![
+                    e(l(2, 3), l(2, 7), vec![A::Probe]),
+                    e(l(3, 3), l(3, 6), nest_acts(inner)),
+                    ep(l(4, 3), vec![A::RecAlias(1, l(4, 7))], l(4, 7), vec![weak(2, Some(1), vec![])]),
                 ])])]),
             ])])],
         },
